@@ -21,6 +21,36 @@ func main() {
 		os.Exit(cmdRun(os.Args[2:]))
 	case "check":
 		os.Exit(cmdCheck(os.Args[2:]))
+	case "list":
+		// the harness inventory: property -> harnesses (flags)
+		var ids []string
+		for id := range props {
+			ids = append(ids, id)
+		}
+		sort.Strings(ids)
+		for _, id := range ids {
+			fmt.Printf("%s:", id)
+			seen := map[string]bool{}
+			for _, hs := range props[id].Harnesses {
+				if seen[hs.Name] {
+					continue
+				}
+				seen[hs.Name] = true
+				fl := ""
+				if hs.Concurrent {
+					fl += " [concurrent]"
+				}
+				if hs.ThoroughOnly {
+					fl += " [thorough only]"
+				}
+				if hs.MustViolate != "" {
+					fl += " [engine self-validation: must violate]"
+				}
+				fmt.Printf(" %s%s;", hs.Name, fl)
+			}
+			fmt.Println()
+		}
+		os.Exit(0)
 	case "replay":
 		os.Exit(cmdReplay(os.Args[2:]))
 	default:
